@@ -33,6 +33,8 @@ class Variable(Node):
 
 class Value(Node):
     def serialize(self) -> str:
+        if '"' in self.value:
+            return f"'{self}'"
         return f'"{self}"'
 
 
